@@ -519,15 +519,16 @@ type Contracts struct {
 	Globals []*GlobalInv
 	Tracked map[string]bool
 	Pools   map[string]string // global holding a *sync.Pool -> type of the pooled objects
+	TypeInvs map[string]string // dynamic type -> spec predicate assumed for every value of that type taken out of an interface
 	Files   []string
 }
 
 func newContracts() *Contracts {
-	return &Contracts{ByKey: map[string]*Contract{}, Specs: map[string]*SpecFunc{}, Tracked: map[string]bool{}, Pools: map[string]string{}}
+	return &Contracts{ByKey: map[string]*Contract{}, Specs: map[string]*SpecFunc{}, Tracked: map[string]bool{}, Pools: map[string]string{}, TypeInvs: map[string]string{}}
 }
 
 var clauseKeywords = map[string]bool{
-	"pool": true, "config": true, "package": true, "func": true, "dyn": true, "iface": true, "var": true, "global": true, "spec": true, "axiom": true, "track": true,
+	"typeinv": true, "pool": true, "config": true, "package": true, "func": true, "dyn": true, "iface": true, "var": true, "global": true, "spec": true, "axiom": true, "track": true,
 	"props": true, "arith": true, "requires": true, "ensures": true, "modifies": true, "loop": true,
 	"invariant": true, "decreases": true, "assert": true, "flag": true, "trusted": true,
 }
@@ -692,6 +693,13 @@ func (cs *Contracts) loadContractFile(file, pkg string, trusted bool) error {
 				return fail(rl.line, "%v in %q", err, body)
 			}
 			cs.Globals = append(cs.Globals, &GlobalInv{Pkg: pkg, E: e, Src: body, File: file, Line: rl.line, Props: props, Assumed: kw == "config"})
+			cur = nil
+		case "typeinv":
+			f := strings.Fields(rest)
+			if len(f) != 2 {
+				return fail(rl.line, "typeinv <type> <spec predicate>")
+			}
+			cs.TypeInvs[f[0]] = f[1]
 			cur = nil
 		case "pool":
 			f := strings.Fields(rest)
